@@ -222,6 +222,7 @@ func (s *connectionWorker) serve(ctx context.Context, session *sessions.Session)
 	}
 	cancel()
 	s.manager.shutdownSession(ctx, session)
+	session.Close()
 }
 
 func (s *manager) shutdownSession(ctx context.Context, session *sessions.Session) {
